@@ -99,3 +99,12 @@ impl VelocityRange {
         self.max - self.min
     }
 }
+
+#[cfg(rosu_pp_verif)]
+impl Reading {
+    /// Verification hook: the value `strain_value_at` returned for every
+    /// processed difficulty object.
+    pub fn verif_object_strains(&self) -> &[f64] {
+        &self.strain_skill_object_strains
+    }
+}
